@@ -194,20 +194,4 @@ theorem selND_length : ∀ (sh : List Nat) (idx : List (List Nat)) (d : List Val
     simp only [List.length_take, List.length_drop, hd]
     omega
 
-theorem sliceBase_wf (b b' : Base) (sl : List PSlice) (h : b.WF) (hs : sliceBase b sl = .ok b') :
-    b'.WF ∧ b'.name = b.name ∧ b'.ty = b.ty ∧
-    b'.shape = (List.zipWith sel b.shape (padSl b.shape.length sl)).map List.length := by
-  unfold sliceBase at hs
-  split at hs
-  · rename_i hc
-    simp only [Except.ok.injEq] at hs
-    subst hs
-    refine ⟨⟨?_, rfl⟩, rfl, rfl, rfl⟩
-    simp only
-    apply selND_length
-    · simp only [padSl, List.length_zipWith, List.length_append, List.length_replicate]; omega
-    · exact zip_sel_bound _ _ _ hc.2
-    · exact h.1
-  · simp at hs
-
 end Pydap.Handler
